@@ -46,6 +46,7 @@ def run(tier):
     # differential part: every catalogue operator that exists as a method, same seeded scenario through both forms
     df = diff_common.forms_pass(ck, ck.seed + 91, 4 if tier == "quick" else 40)
     ck.note("differential_forms_pass", df)
+    ck.note("differential_fluent_resubscription_pass", diff_common.resub_pass(ck, ck.seed + 95, 2 if tier == "quick" else 20, form="fluent"))
     ck.note("differential_connectable_forms_pass", diff_common.conn_forms_pass(ck, ck.seed + 93, 12 if tier == "quick" else 150))
     ck.rule = (f"every Ops1.tla scenario ({k} tokens, length 0..{n}; slices over length 0..3) through the fluent method and the piped "
                "operator; non-trivial = output differs from the input")
